@@ -242,6 +242,7 @@ let mk_sys toks =
     let distn = n_of_u64_string dist in
     let inv_bad = ref None in
     let nsteps = ref 0 in
+    let model_agreed = ref false in   (* set by final_ok: g1drv calls it only when the whole trace matched the model *)
     if kind = "uis" || kind = "pool" then begin
       let conv = function Acq _ -> [UAcq] | Rel (lk, fr) -> [URel (mode (lk && kind = "uis"), fr)] | Bor -> [UBorrowed] | IsL -> [UIsLocked] | Rec _ -> [] in
       let progs = Array.map (fun l -> List.concat (List.map conv l)) aprogs in
@@ -270,6 +271,7 @@ let mk_sys toks =
         let rec go cc = match uis_step1 (nat_of_int t) cc with None -> true | Some (c', []) -> go c' | Some _ -> false in go !c in
       { nthreads = nt; step; finished;
         final_ok = (fun toks ->
+          model_agreed := true;
           let g = fst !c in
           let w = g.uhead in
           let b = hd_borrowed w in
@@ -285,9 +287,13 @@ let mk_sys toks =
           let m = (if kind = "pool" then "x" else if locked then "0" else u64_string_of_n b) :: (if locked then "1" else "0") :: List.rev !codes in
           if m = toks then None else Some (Printf.sprintf "model final [%s] impl final [%s]" (sconcat m) (sconcat toks)));
         spec = (fun rets final ->
-          match !inv_bad with
-          | Some m when kind <> "wrapx" -> Some ("model-state invariant oracle: " ^ m)
-          | _ -> spec_uis capi (kind = "pool") aprogs rets final) }
+          (* the property oracle looks at the implementation's own returns and final state only; the
+             invariant oracle speaks about the implementation only when the model followed it to the end *)
+          match spec_uis capi (kind = "pool") aprogs rets final with
+          | Some m -> Some m
+          | None -> (match !inv_bad with
+                     | Some m when !model_agreed -> Some ("proved invariant false on a state the implementation reached (model followed the whole trace): " ^ m)
+                     | _ -> None)) }
     end else if kind = "ruis" then begin
       let conv = function Acq d -> RAcq (n_of_int d) | Rel (lk, fr) -> RRel (mode lk, fr) | Bor -> RBorrowed | IsL -> RIsLocked | Rec (d, lk) -> RRecover (n_of_int d, mode lk) in
       let progs = Array.map (List.map conv) aprogs in
